@@ -606,7 +606,7 @@ func (g *Gen) GenNode(depth int, root bool) *Node {
 		return n
 	}
 	if !root && g.Cfg.Mode == "parse" && g.p(g.Cfg.PPre, "pre") {
-		n := &Node{Kind: KPre, PreFn: pick(g, []string{"trim", "maybe", "split", "error", "any", "trim", "maybe"}, "prefn")}
+		n := &Node{Kind: KPre, PreFn: pick(g, []string{"trim", "maybe", "split", "error", "any", "trim", "maybe", "ptr"}, "prefn")}
 		saved := g.Cfg
 		g.Cfg.PPre, g.Cfg.PCoercer, g.Cfg.LeafKinds = 0, 0, []string{KString}
 		switch {
@@ -972,6 +972,9 @@ func (g *Gen) GenTyped(n *Node) Val {
 		}
 		if (n.PreFn == "maybe" || n.PreFn == "vmaybe") && g.p(0.3, "bad") {
 			v = Str(v.S + "bad")
+		}
+		if n.PreFn == "ptr" && g.p(0.4, "none") {
+			v = Str(v.S + " none")
 		}
 		if n.PreFn == "vtrim" && g.p(0.5, "vpad") {
 			v = Str(" " + v.S + "  ")
